@@ -592,6 +592,7 @@ retrieve(struct decoder_state *restrict ds, struct bitstream *bs)
         return ERR_SELECTOR;
       rs->selector[rs->j] = k - 1u;
       DUMP(k);
+      VERIF_POINT(SELECTOR, rs->j);
       NEED(S_SELECTOR_MTF);
     }
 
